@@ -216,6 +216,9 @@ fn enumerate(c: &mut Case) {
     let mut positions: Vec<usize> = vec![r.start];
     positions.extend(recs.iter().map(|x| r.start + x.end));
     for (pi, &at) in positions.iter().enumerate() {
+        if c.ctx.miri() && pi % 4 != 1 {
+            continue;
+        }
         for foreign in [false, true] {
             if foreign && !c.rng.chance(1, 3) {
                 continue;
@@ -239,8 +242,8 @@ fn enumerate(c: &mut Case) {
 }
 
 pub fn run(ctx: &Ctx, evidence: Option<&PathBuf>) -> i32 {
-    ctx.run_fixed("directed", ctx.dn(60), enumerate);
-    let n = ctx.size(400, 40_000);
+    ctx.run_fixed("directed", if ctx.miri() { 1 } else { ctx.dn(60) }, enumerate);
+    let n = ctx.size3(400, 40_000, 1);
     ctx.run_cases("abort-positions", n, enumerate);
     ctx.gate("active_id_abort_positions", 500);
     ctx.gate("foreign_id_abort_positions", 100);
